@@ -64,13 +64,17 @@ async fn run_case(addr: SocketAddr, certs: &Certs, t: &[&str], seed: u64) -> any
 
     let mut refused: Vec<usize> = vec![];
     let mut finish_err = false;
+    // fin mode `l`: the publisher is on a connection of its own and leaves (client dropped) as soon as finish() has returned,
+    // while the subscriber has not started reading: what finish() acknowledged still arrives
+    let leave = t[6] == "l";
+    let mut pclient: Option<selium::Client> = if leave { Some(crate::e2e::client(addr, certs, BackoffStrategy::constant().with_max_attempts(0)).await?) } else { None };
     macro_rules! drive {
         ($enc:expr, $dec:expr, $to:expr, $from:expr) => {{
             let mut sb = client.subscriber(&topic).with_decoder($dec);
             if algo != "-" { sb = sb.with_decompression(DynDecomp(decompressor(algo))); }
             let mut sub = sb.open().await?;
             tokio::time::sleep(Duration::from_millis(40)).await;
-            let mut pb = client.publisher(&topic).with_encoder($enc);
+            let mut pb = pclient.as_ref().unwrap_or(&client).publisher(&topic).with_encoder($enc);
             if algo != "-" { pb = pb.with_compression(DynComp(compressor(algo))); }
             if let Some(b) = batch_cfg.clone() { pb = pb.with_batching(b); }
             let mut publ = Some(pb.open().await?);
@@ -83,7 +87,7 @@ async fn run_case(addr: SocketAddr, certs: &Certs, t: &[&str], seed: u64) -> any
                 if r.is_err() { refused.push(i); }
             }
             if bare_ready { let _ = futures::future::poll_fn(|cx| publ.as_mut().unwrap().poll_ready_unpin(cx)).await; }
-            if fin { if publ.take().unwrap().finish().await.is_err() { finish_err = true; } } else { publ.as_mut().unwrap().flush().await?; tokio::time::sleep(Duration::from_millis(30)).await; }
+            if fin { if publ.take().unwrap().finish().await.is_err() { finish_err = true; } if leave { drop(pclient.take()); tokio::time::sleep(Duration::from_millis(150)).await; } } else { publ.as_mut().unwrap().flush().await?; tokio::time::sleep(Duration::from_millis(30)).await; }
             let mut got: Vec<String> = vec![];
             let mut errs = 0usize;
             loop {
@@ -139,6 +143,32 @@ async fn run_dup(addr: SocketAddr, certs: &Certs, t: &[&str]) -> anyhow::Result<
     }
     let show = |v: &Vec<String>| if v.is_empty() { "-".to_string() } else { v.join(",") };
     Ok(format!("a={} b={} errs={errs}", show(&ga), show(&gb)))
+}
+
+/// `ppquiet <pause_ms>`: two items, a pause in which nothing is published, four more, finish(): all six arrive (client and
+/// server as they come: the client's keep-alive keeps a quiet connection from being given up)
+async fn run_quiet(addr: SocketAddr, certs: &Certs, pause_ms: u64) -> anyhow::Result<String> {
+    let topic = format!("/verif/quiet{}", TOPIC.fetch_add(1, Ordering::SeqCst));
+    // the library's own defaults for keep-alive and backoff
+    let client = selium::custom().endpoint(&addr.to_string())
+        .with_certificate_authority(certs.client("ca.der"))?.with_cert_and_key(certs.client("localhost.der"), certs.client("localhost.key.der"))?.connect().await?;
+    let mut sub = client.subscriber(&topic).with_decoder(StringCodec).open().await?;
+    tokio::time::sleep(Duration::from_millis(40)).await;
+    let mut publ = client.publisher(&topic).with_encoder(StringCodec).open().await?;
+    for i in 0..2 { publ.send(format!("{i}|")).await?; }
+    tokio::time::sleep(Duration::from_millis(pause_ms)).await;
+    for i in 2..6 { publ.send(format!("{i}|")).await?; }
+    publ.finish().await?;
+    let (mut got, mut errs) = (vec![], 0usize);
+    loop {
+        match tokio::time::timeout(Duration::from_millis(if got.len() >= 6 { 80 } else { 1500 }), sub.next()).await {
+            Err(_) | Ok(None) => break,
+            Ok(Some(Ok(v))) => got.push(v.trim_end_matches('|').to_string()),
+            Ok(Some(Err(_))) => { errs += 1; if errs > 5 { break; } }
+        }
+        if got.len() > 12 { break; }
+    }
+    Ok(format!("{} errs={errs}", if got.is_empty() { "-".to_string() } else { got.join(",") }))
 }
 
 /// the subscriber must yield exactly the items whose `send` returned Ok, in order
@@ -203,6 +233,12 @@ pub fn run(cfg: &Cfg) {
             }
         }
         cases.push("pp string - 3:60000 7 s n".into());
+        cases.push("ppquiet 6500".into());
+        // a publisher that leaves right after finish(), the subscriber not yet reading, more than a stream window under way
+        cases.push("pp bytes - - 30 Z65536 l".into());
+        cases.push("pp string zstd:bal 3:60000 7 m l".into());
+        // a batch that is several times a frame before compression
+        cases.push("pp string lz4:- 12:60000 12 Z400000 y".into());
         // duplicate(): before anything was sent, with a partial batch collected, right after a batch was framed, unbatched
         for (b, k, m, j) in [("10:60000", 0, 2, 2), ("10:60000", 3, 1, 1), ("3:60000", 3, 2, 1), ("3:60000", 4, 0, 0), ("3:60000", 2, 5, 2), ("-", 2, 2, 1), ("4:0", 3, 1, 2)] {
             cases.push(format!("ppdup {b} {k} {m} {j}"));
@@ -264,7 +300,18 @@ pub fn run(cfg: &Cfg) {
     }
     for c in &cases {
         let t: Vec<&str> = c.split(' ').collect();
-        let n: usize = t[4].parse().unwrap();
+        let n: usize = t.get(4).and_then(|x| x.parse().ok()).unwrap_or(0);
+        if t[0] == "ppquiet" {
+            out.stat("quiet_spell");
+            let res = rt.block_on(async { tokio::time::timeout(Duration::from_secs(40), run_quiet(addr, &certs, t[1].parse().unwrap())).await });
+            let (imp, mon) = match res {
+                Err(_) => ("TIMEOUT".to_string(), Err("C03: the exchange did not complete within 40 s".to_string())),
+                Ok(Err(e)) => (format!("ERROR {}", format!("{e:?}").replace('\n', " ").chars().take(200).collect::<String>()), Err(format!("C03/C12: client error {e}"))),
+                Ok(Ok(line)) => { let mon = if line == "0,1,2,3,4,5 errs=0" { Ok(()) } else { Err(format!("C03/C12: two items, {} ms in which nothing is published, four more (library defaults on both sides): the subscriber yielded [{line}]", t[1])) }; (line, mon) }
+            };
+            out.case(c, &imp, mon);
+            continue;
+        }
         if t[0] == "ppdup" {
             out.stat("duplicate");
             let (k, m, j): (usize, usize, usize) = (t[2].parse().unwrap(), t[3].parse().unwrap(), n);
@@ -301,7 +348,13 @@ pub fn run(cfg: &Cfg) {
             out.case(c, &imp, mon);
             continue;
         }
-        let res = rt.block_on(async { tokio::time::timeout(Duration::from_secs(30), run_case(addr, &certs, &t, cfg.seed)).await });
+        let mut res = rt.block_on(async { tokio::time::timeout(Duration::from_secs(30), run_case(addr, &certs, &t, cfg.seed)).await });
+        // an exchange that did not complete at all (a connection-level error, the time limit) is run once more before it is
+        // judged: on a starved machine a QUIC connection can be declared idle; what is repeatable is reported
+        if !matches!(res, Ok(Ok(_))) {
+            out.stat("repeated_after_connection_error");
+            res = rt.block_on(async { tokio::time::timeout(Duration::from_secs(60), run_case(addr, &certs, &t, cfg.seed)).await });
+        }
         let want = format!("{} errs=0", if n == 0 { "-".to_string() } else { (0..n).map(|i| i.to_string()).collect::<Vec<_>>().join(",") });
         let (imp, mon) = match res {
             Err(_) => ("TIMEOUT".to_string(), Err("C03: the exchange did not complete within 30 s".to_string())),
